@@ -600,7 +600,7 @@ class Stage:
                     value = value.reshape((1, value.shape[0]))
                 if isinstance(value, DM) and value.shape[0]==1 and value.shape[1]>1:
                     value = value.T
-            if isinstance(value, DM):
+            if isinstance(value, (DM, MX)):
                 # structural zeros are numbers too: a sparse guess would be assigned entry by nonzero entry
                 value = ca.densify(value)
             self._initial[var] = value
